@@ -1,8 +1,5 @@
+include!(concat!(env!("OUT_DIR"), "/programs_0.rs"));
+
 fn main() {
-    let args = vcommon::Args::parse();
-    if args.prop == "NONE" {
-        return;
-    }
-    eprintln!("not implemented yet");
-    std::process::exit(3);
+    dx_core::monitor::main(GEN_SEED, GEN_N, SHARD, PROGRAMS);
 }
